@@ -1,8 +1,7 @@
 //@prelude u128
 // =================================================================================================
-// C39  Competition: volume extensions never move the end time earlier nor past the cap
-//      programs/competition/src/instructions/trade_callback.rs :: OnExecuted::extend_competition_time
-//      (the leaderboard half of the property is NOT covered here: Vec remove/insert with iterator closures)
+// C39  Competition: the leaderboard step and the end-time extension
+//      programs/competition/src/instructions/trade_callback.rs :: OnExecuted::{update_leaderboard, extend_competition_time}
 // =================================================================================================
 verus! {
 // ASSUMED std contract (vstd has none)
@@ -25,7 +24,10 @@ pub uninterp spec fn now_spec() -> i64;
 pub fn clock_get() -> (r: Result<Clock, E>) ensures r.is_ok() ==> r.unwrap().unix_timestamp == now_spec() { unimplemented!() }
 
 //@struct programs/competition/src/states.rs :: pub struct Competition :: bump, authority, start_time, end_time, leaderboard, volume_threshold, extension_duration, extension_cap, extension_triggerer, only_count_increase, volume_merge_window
-pub struct Competition { pub start_time: i64, pub end_time: i64, pub volume_threshold: u128, pub extension_duration: i64, pub extension_cap: i64, pub extension_triggerer: Option<Pubkey> }
+pub struct Competition { pub start_time: i64, pub end_time: i64, pub leaderboard: Vec<LeaderEntry>, pub volume_threshold: u128, pub extension_duration: i64, pub extension_cap: i64, pub extension_triggerer: Option<Pubkey> }
+//@struct programs/competition/src/states.rs :: pub struct LeaderEntry :: address, volume
+#[derive(Clone, Copy)]
+pub struct LeaderEntry { pub address: Pubkey, pub volume: u128 }
 //@struct programs/competition/src/states.rs :: pub struct Participant :: bump, competition, trader, volume, last_updated_at, merged_volume
 pub struct Participant { pub trader: Pubkey, pub volume: u128 }
 
@@ -50,4 +52,316 @@ pub fn extend_competition_time(comp: &mut Competition, part: &Participant, volum
         // the invariant assumed above is preserved (so the bound holds for every later extension too)
         comp_wf(*final(comp)),
 //@body
+
+// ---- leaderboard -------------------------------------------------------------------------------------------
+//@const programs/competition/src/states.rs :: MAX_LEADERBOARD_LEN :: u8 = 5
+pub const MAX_LEADERBOARD_LEN: u8 = 5;
+
+/// `slice::Iter::position`: index of the first element (front to back) satisfying the predicate (rule R17)
+pub fn slice_position<F: Fn(&LeaderEntry) -> bool>(s: &Vec<LeaderEntry>, f: F) -> (r: Option<usize>)
+    requires forall|x: &LeaderEntry| f.requires((x,))
+    ensures
+        r.is_some() ==> r.unwrap() < s.len() && f.ensures((&s[r.unwrap() as int],), true)
+            && forall|j: int| 0 <= j < r.unwrap() ==> f.ensures((#[trigger] &s[j],), false),
+        r.is_none() ==> forall|j: int| 0 <= j < s.len() ==> f.ensures((#[trigger] &s[j],), false),
+{
+    let mut i: usize = 0;
+    while i < s.len()
+        invariant i <= s.len(), forall|x: &LeaderEntry| f.requires((x,)), forall|j: int| 0 <= j < i ==> f.ensures((#[trigger] &s[j],), false)
+        decreases s.len() - i
+    {
+        if f(&s[i]) { return Some(i); }
+        i += 1;
+    }
+    None
+}
+/// `slice::Iter::rposition`: index (from the front) of the last element satisfying the predicate (rule R17)
+pub fn slice_rposition<F: Fn(&LeaderEntry) -> bool>(s: &Vec<LeaderEntry>, f: F) -> (r: Option<usize>)
+    requires forall|x: &LeaderEntry| f.requires((x,))
+    ensures
+        r.is_some() ==> r.unwrap() < s.len() && f.ensures((&s[r.unwrap() as int],), true)
+            && forall|j: int| r.unwrap() < j < s.len() ==> f.ensures((#[trigger] &s[j],), false),
+        r.is_none() ==> forall|j: int| 0 <= j < s.len() ==> f.ensures((#[trigger] &s[j],), false),
+{
+    let mut i: usize = s.len();
+    while i > 0
+        invariant i <= s.len(), forall|x: &LeaderEntry| f.requires((x,)), forall|j: int| i <= j < s.len() ==> f.ensures((#[trigger] &s[j],), false)
+        decreases i
+    {
+        i -= 1;
+        if f(&s[i]) { return Some(i); }
+    }
+    None
+}
+
+/// at most five entries, non-increasing volumes, pairwise distinct traders
+pub open spec fn board_wf(b: Seq<LeaderEntry>) -> bool {
+    &&& b.len() <= 5
+    &&& forall|i: int, j: int| 0 <= i < j < b.len() ==> b[i].volume >= b[j].volume
+    &&& forall|i: int, j: int| 0 <= i < j < b.len() ==> b[i].address != b[j].address
+}
+pub open spec fn shown(b: Seq<LeaderEntry>, k: Pubkey) -> bool { exists|i: int| 0 <= i < b.len() && b[i].address == k }
+pub open spec fn shown_with(b: Seq<LeaderEntry>, k: Pubkey, v: u128) -> bool { exists|i: int| 0 <= i < b.len() && b[i].address == k && b[i].volume == v }
+/// a participant who is left off: never traded, or the board is full and its last entry has at least as much volume
+pub open spec fn left_off_ok(b: Seq<LeaderEntry>, volume: u128) -> bool { volume == 0 || (b.len() == 5 && volume <= b[4].volume) }
+
+/// Precondition of one counted trade: the board is well formed, and a trader's cumulative volume only grows
+/// (`part.volume = part.volume.saturating_add(volume)` at the call site), so it is at least the volume they are shown with.
+#[verifier::opaque]
+pub open spec fn step_pre(b0: Seq<LeaderEntry>, trader: Pubkey, vol: u128) -> bool {
+    &&& board_wf(b0)
+    &&& forall|i: int| 0 <= i < b0.len() && b0[i].address == trader ==> (#[trigger] b0[i]).volume <= vol
+}
+/// Postcondition of one counted trade (old board b0, new board b3), from the statement.
+#[verifier::opaque]
+pub open spec fn step_post(b0: Seq<LeaderEntry>, b3: Seq<LeaderEntry>, trader: Pubkey, vol: u128) -> bool {
+    // at most five distinct traders in non-increasing order of volume
+    &&& board_wf(b3)
+    // the trader is shown with their latest volume, or is left off a full board whose last entry has at least as much
+    &&& (shown_with(b3, trader, vol) || (!shown(b3, trader) && b3.len() == 5 && vol <= b3[4].volume))
+    // every other trader that was shown is still shown with the same volume, or has been pushed off a full board whose
+    // last entry has at least as much volume
+    &&& forall|i: int| 0 <= i < b0.len() && b0[i].address != trader ==>
+            shown_with(b3, (#[trigger] b0[i]).address, b0[i].volume) || (!shown(b3, b0[i].address) && b3.len() == 5 && b0[i].volume <= b3[4].volume)
+    // nobody else appears
+    &&& forall|i: int| 0 <= i < b3.len() ==> (#[trigger] b3[i]).address == trader || shown(b0, b3[i].address)
+    // the board never loses a place, and the volume needed to stay on a full board never drops
+    &&& b3.len() >= b0.len()
+    &&& (b0.len() == 5 ==> b3[4].volume >= b0[4].volume)
+}
+
+pub open spec fn sub_board(a: Seq<LeaderEntry>, b: Seq<LeaderEntry>) -> bool { forall|j: int| 0 <= j < a.len() ==> shown_with(b, (#[trigger] a[j]).address, a[j].volume) }
+/// state after the first half of update_leaderboard (the trader's old record, if any, removed): b1
+#[verifier::opaque]
+pub open spec fn step1_ok(b0: Seq<LeaderEntry>, b1: Seq<LeaderEntry>, trader: Pubkey, vol: u128) -> bool {
+    &&& board_wf(b0) && board_wf(b1) && !shown(b1, trader) && sub_board(b1, b0)
+    &&& forall|i: int| 0 <= i < b0.len() && b0[i].address != trader ==> shown_with(b1, (#[trigger] b0[i]).address, b0[i].volume)
+    &&& ((b1.len() == b0.len() && !shown(b0, trader)) || (b1.len() == b0.len() - 1 && shown(b0, trader)))
+    &&& (b0.len() > 0 ==> forall|j: int| 0 <= j < b1.len() ==> (#[trigger] b1[j]).volume >= b0[b0.len() - 1].volume)
+    &&& (shown(b0, trader) ==> vol >= b0[b0.len() - 1].volume)
+}
+/// the insert position found by rposition: everything before has at least the new volume, everything from it on has less
+#[verifier::opaque]
+pub open spec fn pos_ok(b1: Seq<LeaderEntry>, ip: int, vol: u128) -> bool {
+    &&& 0 <= ip <= b1.len()
+    &&& forall|j: int| 0 <= j < ip ==> (#[trigger] b1[j]).volume >= vol
+    &&& forall|j: int| ip <= j < b1.len() ==> (#[trigger] b1[j]).volume <= vol
+}
+pub open spec fn truncated(b2: Seq<LeaderEntry>) -> Seq<LeaderEntry> { if b2.len() > 5 { b2.subrange(0, 5) } else { b2 } }
+pub open spec fn after_insert(b1: Seq<LeaderEntry>, ip: int, e: LeaderEntry) -> Seq<LeaderEntry> {
+    if ip < 5 { truncated(b1.insert(ip, e)) } else { b1 }
+}
+
+/// inserting behind a full board and truncating again changes nothing (keeps the proof independent of whether the
+/// code skips that insertion)
+pub proof fn lemma_insert_at_end_of_full_board(b1: Seq<LeaderEntry>, e: LeaderEntry)
+    ensures b1.len() == 5 ==> truncated(b1.insert(5, e)) =~= b1
+{
+}
+pub proof fn lemma_no_removal(b0: Seq<LeaderEntry>, trader: Pubkey, vol: u128)
+    requires step_pre(b0, trader, vol), forall|j: int| 0 <= j < b0.len() ==> (#[trigger] b0[j]).address != trader
+    ensures step1_ok(b0, b0, trader, vol)
+{
+    reveal(step_pre); reveal(step1_ok);
+    assert forall|j: int| 0 <= j < b0.len() implies shown_with(b0, (#[trigger] b0[j]).address, b0[j].volume) by { assert(b0[j].address == b0[j].address && b0[j].volume == b0[j].volume); }
+    if b0.len() > 0 {
+        assert forall|j: int| 0 <= j < b0.len() implies (#[trigger] b0[j]).volume >= b0[b0.len() - 1].volume by { if j < b0.len() - 1 { assert(b0[j].volume >= b0[b0.len() - 1].volume); } }
+    }
+}
+
+pub proof fn lemma_remove_step(b0: Seq<LeaderEntry>, pos: int, trader: Pubkey, vol: u128)
+    requires step_pre(b0, trader, vol), 0 <= pos < b0.len(), b0[pos].address == trader
+    ensures step1_ok(b0, b0.remove(pos), trader, vol)
+{
+    reveal(step_pre); reveal(step1_ok);
+    let b1 = b0.remove(pos);
+    assert forall|j: int| 0 <= j < b1.len() implies b1[j] == b0[if j < pos { j } else { j + 1 }] by {}
+    assert forall|j: int| 0 <= j < b1.len() implies shown_with(b0, (#[trigger] b1[j]).address, b1[j].volume) by {
+        let w = if j < pos { j } else { j + 1 }; assert(b0[w].address == b1[j].address && b0[w].volume == b1[j].volume);
+    }
+    assert forall|i: int| 0 <= i < b0.len() && b0[i].address != trader implies shown_with(b1, (#[trigger] b0[i]).address, b0[i].volume) by {
+        let w = if i < pos { i } else { i - 1 }; assert(b1[w].address == b0[i].address && b1[w].volume == b0[i].volume);
+    }
+    assert(!shown(b1, trader)) by {
+        if shown(b1, trader) { let j = choose|j: int| 0 <= j < b1.len() && b1[j].address == trader; let w = if j < pos { j } else { j + 1 }; assert(b0[w].address == trader); assert(w != pos); if w < pos { assert(b0[w].address != b0[pos].address); } else { assert(b0[pos].address != b0[w].address); } }
+    }
+    assert forall|i: int, j: int| 0 <= i < j < b1.len() implies b1[i].volume >= b1[j].volume && b1[i].address != b1[j].address by {
+        let wi = if i < pos { i } else { i + 1 }; let wj = if j < pos { j } else { j + 1 }; assert(wi < wj); assert(b0[wi].volume >= b0[wj].volume && b0[wi].address != b0[wj].address);
+    }
+    assert forall|j: int| 0 <= j < b1.len() implies (#[trigger] b1[j]).volume >= b0[b0.len() - 1].volume by {
+        let w = if j < pos { j } else { j + 1 }; if w < b0.len() - 1 { assert(b0[w].volume >= b0[b0.len() - 1].volume); }
+    }
+    assert(shown(b0, trader));
+    assert(b0[pos].volume <= vol);
+    if pos < b0.len() - 1 { assert(b0[pos].volume >= b0[b0.len() - 1].volume); }
+}
+
+pub proof fn lemma_pos(b0: Seq<LeaderEntry>, b1: Seq<LeaderEntry>, trader: Pubkey, vol: u128, ip: int)
+    requires step1_ok(b0, b1, trader, vol), 0 <= ip <= b1.len(), ip > 0 ==> b1[ip - 1].volume >= vol,
+        forall|j: int| ip <= j < b1.len() ==> (#[trigger] b1[j]).volume <= vol,
+    ensures pos_ok(b1, ip, vol), b1.len() <= 5
+{
+    reveal(step1_ok); reveal(pos_ok);
+    assert forall|j: int| 0 <= j < ip implies (#[trigger] b1[j]).volume >= vol by { if j < ip - 1 { assert(b1[j].volume >= b1[ip - 1].volume); } }
+}
+
+pub proof fn lemma_insert_step(b1: Seq<LeaderEntry>, ip: int, e: LeaderEntry)
+    requires board_wf(b1), !shown(b1, e.address), 0 <= ip <= b1.len(),
+        forall|j: int| 0 <= j < ip ==> (#[trigger] b1[j]).volume >= e.volume,
+        forall|j: int| ip <= j < b1.len() ==> (#[trigger] b1[j]).volume <= e.volume,
+    ensures ({ let b2 = b1.insert(ip, e);
+        &&& b2.len() == b1.len() + 1 && b2[ip] == e
+        &&& forall|i: int, j: int| 0 <= i < j < b2.len() ==> b2[i].volume >= b2[j].volume && b2[i].address != b2[j].address
+        &&& sub_board(b1, b2)
+        &&& forall|i: int| 0 <= i < b2.len() ==> (#[trigger] b2[i]) == e || shown_with(b1, b2[i].address, b2[i].volume)
+    })
+{
+    let b2 = b1.insert(ip, e);
+    assert forall|i: int| 0 <= i < b2.len() implies b2[i] == (if i < ip { b1[i] } else if i == ip { e } else { b1[i - 1] }) by {}
+    assert forall|j: int| 0 <= j < b1.len() implies shown_with(b2, (#[trigger] b1[j]).address, b1[j].volume) by {
+        let w = if j < ip { j } else { j + 1 }; assert(b2[w] == b1[j]);
+    }
+    assert forall|i: int| 0 <= i < b2.len() implies (#[trigger] b2[i]) == e || shown_with(b1, b2[i].address, b2[i].volume) by {
+        if i != ip { let w = if i < ip { i } else { i - 1 }; assert(b1[w] == b2[i]); }
+    }
+    assert forall|i: int, j: int| 0 <= i < j < b2.len() implies b2[i].volume >= b2[j].volume && b2[i].address != b2[j].address by {
+        let wi = if i < ip { i } else { i - 1 }; let wj = if j < ip { j } else { j - 1 };
+        if i == ip { assert(b1[wj].volume <= e.volume); assert(b1[wj].address != e.address); }
+        else if j == ip { assert(b1[wi].volume >= e.volume); assert(b1[wi].address != e.address); }
+        else { assert(wi < wj); assert(b1[wi].volume >= b1[wj].volume && b1[wi].address != b1[wj].address); }
+    }
+}
+
+pub open spec fn ordered_distinct(b: Seq<LeaderEntry>) -> bool {
+    forall|i: int, j: int| 0 <= i < j < b.len() ==> b[i].volume >= b[j].volume && b[i].address != b[j].address
+}
+pub proof fn lemma_trunc(b2: Seq<LeaderEntry>)
+    requires ordered_distinct(b2), b2.len() <= 6
+    ensures ({ let b3 = truncated(b2);
+        &&& board_wf(b3) && b3.len() <= b2.len()
+        &&& forall|i: int| 0 <= i < b3.len() ==> b3[i] == b2[i]
+        &&& b2.len() == 6 ==> b3.len() == 5 && b2[5].volume <= b3[4].volume && !shown(b3, b2[5].address)
+        &&& b2.len() <= 5 ==> b3 == b2
+    })
+{
+    let b3 = truncated(b2);
+    assert forall|i: int, j: int| 0 <= i < j < b3.len() implies b3[i].volume >= b3[j].volume && b3[i].address != b3[j].address by {
+        assert(b2[i].volume >= b2[j].volume && b2[i].address != b2[j].address);
+    }
+    if b2.len() == 6 {
+        assert(b2[4].volume >= b2[5].volume);
+        assert(!shown(b3, b2[5].address)) by {
+            if shown(b3, b2[5].address) { let y = choose|y: int| 0 <= y < b3.len() && b3[y].address == b2[5].address; assert(b2[y].address != b2[5].address); }
+        }
+    }
+}
+/// an entry of b1 survives insert + truncate, or is the one pushed off a full board
+pub proof fn lemma_survives(b1: Seq<LeaderEntry>, ip: int, e: LeaderEntry, w: int)
+    requires board_wf(b1), !shown(b1, e.address), 0 <= ip <= b1.len(), ip < 5, 0 <= w < b1.len(),
+        forall|j: int| 0 <= j < ip ==> (#[trigger] b1[j]).volume >= e.volume,
+        forall|j: int| ip <= j < b1.len() ==> (#[trigger] b1[j]).volume <= e.volume,
+    ensures ({ let b3 = truncated(b1.insert(ip, e));
+        shown_with(b3, b1[w].address, b1[w].volume) || (!shown(b3, b1[w].address) && b3.len() == 5 && b1[w].volume <= b3[4].volume) })
+{
+    lemma_insert_step(b1, ip, e);
+    let b2 = b1.insert(ip, e);
+    lemma_trunc(b2);
+    let b3 = truncated(b2);
+    let x = if w < ip { w } else { w + 1 };
+    assert(b2[x] == b1[w]);
+    if x < b3.len() { assert(b3[x] == b2[x]); } else { assert(x == 5 && b2.len() == 6); }
+}
+pub proof fn lemma_nobody_else(b0: Seq<LeaderEntry>, b1: Seq<LeaderEntry>, b2: Seq<LeaderEntry>, b3: Seq<LeaderEntry>, e: LeaderEntry, i: int)
+    requires sub_board(b1, b0), 0 <= i < b3.len(), b3.len() <= b2.len(), b3[i] == b2[i],
+        forall|k: int| 0 <= k < b2.len() ==> (#[trigger] b2[k]) == e || shown_with(b1, b2[k].address, b2[k].volume),
+    ensures b3[i].address == e.address || shown(b0, b3[i].address)
+{
+    if b2[i] != e {
+        let w = choose|w: int| 0 <= w < b1.len() && b1[w].address == b2[i].address && b1[w].volume == b2[i].volume;
+        assert(shown_with(b0, b1[w].address, b1[w].volume));
+    }
+}
+pub proof fn lemma_last_volume(b0: Seq<LeaderEntry>, b1: Seq<LeaderEntry>, e: LeaderEntry, ip: int)
+    requires board_wf(b0), board_wf(b1), b0.len() == 5, 0 <= ip <= b1.len(), ip < 5,
+        b1.len() == 5 || (b1.len() == 4 && e.volume >= b0[4].volume),
+        forall|j: int| 0 <= j < b1.len() ==> (#[trigger] b1[j]).volume >= b0[4].volume,
+        forall|j: int| ip <= j < b1.len() ==> (#[trigger] b1[j]).volume <= e.volume,
+    ensures truncated(b1.insert(ip, e))[4].volume >= b0[4].volume
+{
+    let b2 = b1.insert(ip, e);
+    if ip == 4 { assert(b2[4] == e); if b1.len() == 5 { assert(b1[4].volume <= e.volume); } }
+    else { assert(b2[4] == b1[3]); }
+}
+
+pub proof fn lemma_finish(b0: Seq<LeaderEntry>, b1: Seq<LeaderEntry>, trader: Pubkey, vol: u128, ip: int, b3: Seq<LeaderEntry>)
+    requires step1_ok(b0, b1, trader, vol), pos_ok(b1, ip, vol), b3 == after_insert(b1, ip, LeaderEntry { address: trader, volume: vol })
+    ensures step_post(b0, b3, trader, vol)
+{
+    reveal(step1_ok); reveal(pos_ok); reveal(step_post);
+    let e = LeaderEntry { address: trader, volume: vol };
+    if ip < 5 {
+        lemma_insert_step(b1, ip, e);
+        let b2 = b1.insert(ip, e);
+        lemma_trunc(b2);
+        assert(b3 == truncated(b2));
+        assert(b3[ip] == e);
+        assert(shown_with(b3, trader, vol));
+        assert forall|i: int| 0 <= i < b3.len() implies (#[trigger] b3[i]).address == trader || shown(b0, b3[i].address) by {
+            lemma_nobody_else(b0, b1, b2, b3, e, i);
+        }
+        assert forall|i: int| 0 <= i < b0.len() && b0[i].address != trader implies
+            shown_with(b3, (#[trigger] b0[i]).address, b0[i].volume) || (!shown(b3, b0[i].address) && b3.len() == 5 && b0[i].volume <= b3[4].volume) by {
+            let w = choose|w: int| 0 <= w < b1.len() && b1[w].address == b0[i].address && b1[w].volume == b0[i].volume;
+            lemma_survives(b1, ip, e, w);
+        }
+        if b0.len() == 5 { lemma_last_volume(b0, b1, e, ip); }
+    } else {
+        assert(b1.len() == 5 && b0.len() == 5 && ip == 5);
+        assert(b1[4].volume >= vol);
+        assert forall|i: int| 0 <= i < b3.len() implies (#[trigger] b3[i]).address == trader || shown(b0, b3[i].address) by {
+            assert(shown_with(b0, b1[i].address, b1[i].volume));
+        }
+    }
+}
+
+//@unit C39.update_leaderboard
+//@ file programs/competition/src/instructions/trade_callback.rs
+//@ within impl OnExecuted<'_>
+//@ fn update_leaderboard
+//@ sig fn update_leaderboard(comp: &mut Competition, part: &Participant)
+//@ closures LeaderEntry usize
+//@ top :: let ghost b0 = comp.leaderboard@;
+//@ after let mut old = comp.leaderboard.remove(pos); :: proof { lemma_remove_step(b0, pos as int, part.trader, part.volume); }
+//@ before let insert_pos = :: let ghost b1 = comp.leaderboard@; proof { if b1.len() == b0.len() { lemma_no_removal(b0, part.trader, part.volume); } }
+//@ before if insert_pos :: proof { lemma_pos(b0, b1, part.trader, part.volume, insert_pos as int); }
+//@ bottom :: proof { lemma_insert_at_end_of_full_board(b1, LeaderEntry { address: part.trader, volume: part.volume }); assert(comp.leaderboard@ =~= after_insert(b1, insert_pos as int, LeaderEntry { address: part.trader, volume: part.volume })); lemma_finish(b0, b1, part.trader, part.volume, insert_pos as int, comp.leaderboard@); }
+pub fn update_leaderboard(comp: &mut Competition, part: &Participant)
+    requires
+        step_pre(old(comp).leaderboard@, part.trader, part.volume),
+    ensures
+        step_post(old(comp).leaderboard@, final(comp).leaderboard@, part.trader, part.volume),
+        // nothing else of the competition changes
+        final(comp).end_time == old(comp).end_time && final(comp).extension_triggerer == old(comp).extension_triggerer,
+//@body
+
+/// History step for everybody else: a participant who was left off (and did not trade) stays left off, still with no more
+/// volume than the last entry of a full board.
+pub proof fn lemma_left_off_preserved(b0: Seq<LeaderEntry>, b3: Seq<LeaderEntry>, trader: Pubkey, vol: u128, q: Pubkey, q_volume: u128)
+    requires step_post(b0, b3, trader, vol), q != trader, !shown(b0, q), left_off_ok(b0, q_volume),
+    ensures !shown(b3, q), left_off_ok(b3, q_volume)
+{
+    reveal(step_post);
+}
+/// vacuity guard for the precondition of update_leaderboard (the generic canary skips `&mut` signatures)
+pub proof fn lemma_step_pre_satisfiable(k: Pubkey, k2: Pubkey, v: u128)
+    requires k != k2
+    ensures step_pre(Seq::<LeaderEntry>::empty(), k, v), step_pre(seq![LeaderEntry { address: k, volume: 7 }, LeaderEntry { address: k2, volume: 3 }], k, 9)
+{
+    reveal(step_pre);
+}
+/// the empty board of a new competition satisfies the invariant
+pub proof fn lemma_empty_board_wf()
+    ensures board_wf(Seq::<LeaderEntry>::empty())
+{
+}
 } // verus!
